@@ -67,6 +67,36 @@ def run(ctx):
     ruleprops.run_items(ctx, pairs(ctx, n), predicate, nontrivial)
     # corner stream: no project left to decide, all-zero costs, empty ballots
     ruleprops.run_items(ctx, corner_pairs(ctx, ctx.scale(120, 600)), predicate, nontrivial)
+    wrapper_stream(ctx, ctx.scale(1500, 10000))
+
+
+def wrapper_stream(ctx, n):
+    """the completion / budget-increase wrappers and iterated Equal Shares: same four clauses on what they return"""
+    from . import C09
+
+    for _ in range(n):
+        if ctx.budget_s is not None and ctx.elapsed() > ctx.budget_s:
+            break
+        case, cfg = C09.gen(ctx)
+        built = rules.Built(case, multi=cfg.get("multi", False))
+        ctx.evaluations += 1
+        ctx.count("rule", "wrapper:" + cfg["mode"])
+        sig = {"rule": "wrapper:" + cfg["mode"], "base": cfg.get("rule") or ",".join(cfg.get("rules", [])) or "mes"}
+        try:
+            out = C09.run_wrapper(case, cfg, built)
+        except Exception as e:  # noqa: BLE001
+            ctx.violations.append(violation(f"wrapper raised {e!r}", case, cfg, sig=dict(sig, err=core.err_enum(e))))
+            continue
+        outs = [out] if cfg["res"] else list(out)
+        init_ids = set(case.ids(cfg.get("init") or []))
+        for o in outs:
+            W = [case.rank[p.name] for p in o]
+            cost = sum((case.cost[case.names[i]] for i in W), F(0))
+            if len(set(W)) != len(W) or not init_ids <= set(W) or cost > case.budget:
+                ctx.violations.append(violation(f"wrapper outcome {sorted(W)} (cost {cost}, budget {case.budget}) is not a feasible duplicate-free extension of the initial allocation",
+                                                case, cfg, impl=sorted(W), sig=sig))
+        if len(case.projects) >= 2 and any(len(o) > 0 for o in outs):
+            ctx.nontrivial.add(case.key() + str(sorted(cfg.items(), key=str)))
 
 
 def corner_pairs(ctx, n):
